@@ -494,6 +494,7 @@ class ExecMixin:
         seq = self.to_seq(itv, state, st.iter)
         if seq is None or state.bottom:
             return
+        self.event("for", st, seq=seq)
         self.run_loop(seq, st, state, lambda elem, s: self.assign(st.target, elem, s, st), lambda s: self.exec_block(st.body, s))
         if st.orelse and not state.bottom:
             self.exec_block(st.orelse, state)
